@@ -65,7 +65,7 @@ mod kani_harness {
 
 	// unicode production: `"` `\` `u` h1 h2 h3 h4 `"` with four ARBITRARY bytes
 	#[kani::proof]
-	#[kani::unwind(8)]
+	#[kani::unwind(12)]
 	#[kani::stub(std::fmt::format, crate::verif_kani::stubs::fmt_format)]
 	#[kani::stub(std::backtrace::Backtrace::capture, crate::verif_kani::stubs::backtrace_capture)]
 	fn c19_json_string_unicode_any() {
